@@ -203,13 +203,42 @@ Theorem C01_one_bellman_step_of_the_code_is_the_specifications :
   (forall idx, in_bounds (map (fun sg : string * grid => grid_size (snd sg)) (stoch_states m)) idx ->
      exists q, qread (states m) F (node_vals (states m) (is_stochastic m) det idx) = Some q) ->
   exists v, objective m p false (fun idx => VFin (F idx)) e = VFin v /\
-            (fst (code_value m p F det rows u FE fe t kwargs) == v)%Q /\
-            snd (code_value m p F det rows u FE fe t kwargs) = fe.
+            (fst (code_value m p det rows u FE fe t kwargs (FR_free (states m) F)) == v)%Q /\
+            snd (code_value m p det rows u FE fe t kwargs (FR_free (states m) F)) = fe.
 Proof.
   intros m p e F det rows u FE fe t kwargs H1 H2 H3 H4 H5 H6 H7.
-  exact (one_bellman_step_of_the_code_is_the_specifications m p e F det rows u FE fe t kwargs H1 H2 H3 H4 H5 H6 H7).
+  exact (one_bellman_step_without_restricted_states m p e F det rows u FE fe t kwargs H1 H2 H3 H4 H5 H6 H7).
 Qed.
 Print Assumptions C01_one_bellman_step_of_the_code_is_the_specifications.
+
+(* ... and WITH filter-restricted states: the value array has a leading rank axis over the remaining    *)
+(* restricted-state combinations and is read through the state indexer (-1 for combinations that do     *)
+(* not remain); the scalar value function is the function representation on that indexed layout         *)
+(* (FR_ix, C14); additional hypothesis: every node's restricted combination remains (transitions never   *)
+(* lead into filter-excluded states -- the supported class of this property)                             *)
+From LCM Require Import Proofs.C14_OnLayoutIx.
+Theorem C01_one_bellman_step_of_the_code_with_restricted_states :
+  forall (m : model) (p : params) (e : env) (F : list nat -> Q) (det : string -> Q) (rows : list (list Q))
+         (u : Q) (FE : Type) (fe : FE) (t : nat) (kwargs : list (string * qarr))
+         (isr : string -> bool) (remaining : list (list nat)),
+  NoDup (map fst (states m)) -> grids_valid (states m) ->
+  eval_fun (depth m) m p e "utility" = Some u ->
+  (forall sg, In sg (states m) -> is_stochastic m (fst sg) = false -> next_det m p e (fst sg) = Some (det (fst sg))) ->
+  omap (fun sg : string * grid => weight_row m p e (fst sg)) (stoch_states m) = Some rows ->
+  Forall2 (fun (sg : string * grid) (row : list Q) => length row = grid_size (snd sg)) (stoch_states m) rows ->
+  (forall idx, in_bounds (map (fun sg : string * grid => grid_size (snd sg)) (stoch_states m)) idx ->
+     exists q, qread (states m) F (node_vals (states m) (is_stochastic m) det idx) = Some q) ->
+  (forall idx dl_all, in_bounds (map (fun sg : string * grid => grid_size (snd sg)) (stoch_states m)) idx ->
+     disc_labels (states m) (node_vals (states m) (is_stochastic m) det idx) = Some dl_all ->
+     In (fst (split_labels isr (states m) dl_all)) remaining) ->
+  exists v, objective m p false (fun idx => VFin (F idx)) e = VFin v /\
+            (fst (code_value m p det rows u FE fe t kwargs (FR_ix isr remaining (states m) F)) == v)%Q /\
+            snd (code_value m p det rows u FE fe t kwargs (FR_ix isr remaining (states m) F)) = fe.
+Proof.
+  intros m p e F det rows u FE fe t kwargs isr remaining H1 H2 H3 H4 H5 H6 H7 H8.
+  exact (one_bellman_step_with_restricted_states m p e F det rows u FE fe t kwargs H1 H2 H3 H4 H5 H6 H7 isr remaining H8).
+Qed.
+Print Assumptions C01_one_bellman_step_of_the_code_with_restricted_states.
 
 (* a model with a stochastic and a continuous state that meets the seven hypotheses, and both sides computed *)
 Definition step_model : model :=
@@ -233,7 +262,11 @@ Example C01_bellman_step_nonvacuous :
   (forall idx, in_bounds (map (fun sg : string * grid => grid_size (snd sg)) (stoch_states step_model)) idx ->
      exists q, qread (states step_model) step_table (node_vals (states step_model) (is_stochastic step_model) step_det idx) = Some q) /\
   objective step_model step_params false (fun idx => VFin (step_table idx)) step_env = VFin (22528 # 16384) /\
-  Qred (fst (code_value step_model step_params step_table step_det [[1 # 4; 3 # 4]] (1 # 2) unit tt 0 [])) = 11 # 8.
+  Qred (fst (code_value step_model step_params step_det [[1 # 4; 3 # 4]] (1 # 2) unit tt 0 []
+                         (FR_free (states step_model) step_table))) = 11 # 8 /\
+  (* the same with the state h treated as filter-restricted: both combinations remain *)
+  Qred (fst (code_value step_model step_params step_det [[1 # 4; 3 # 4]] (1 # 2) unit tt 0 []
+                         (FR_ix (fun s => String.eqb s "h") [[0%nat]; [1%nat]] (states step_model) step_table))) = 11 # 8.
 Proof.
   split; [repeat constructor; simpl; intuition discriminate|].
   split; [repeat constructor; vm_compute; reflexivity|].
@@ -246,7 +279,7 @@ Proof.
   { intros idx Hb. change (in_bounds [2%nat] idx) in Hb. destruct idx as [|k idx']; [contradiction|]. destruct Hb as [Hk Hb'].
     destruct idx'; [|contradiction].
     destruct k as [|[|k]]; [eexists; vm_compute; reflexivity|eexists; vm_compute; reflexivity|exfalso; lia]. }
-  split; vm_compute; reflexivity.
+  split; [vm_compute; reflexivity|]. split; vm_compute; reflexivity.
 Qed.
 
 (* ---- the maximum over the continuous choices as the code computes it (Gen/CCV.v) ----------------- *)
